@@ -221,6 +221,14 @@ def _work(item):
 # ----------------------------------------------------------------------------------------------------------------
 
 
+def _preload_library():
+    for name in ("beacon", "c2", "c_c2", "c2profile", "client", "pe", "xordecode", "guardrails", "artifact", "utils", "version", "pcap"):
+        try:
+            importlib.import_module("dissect.cobaltstrike." + name)
+        except Exception:  # an import error surfaces in the chunk that needs the module
+            pass
+
+
 def load_known_findings():
     try:
         with open(KNOWN_FINDINGS) as f:
@@ -263,8 +271,13 @@ def run_check(mod, tier: str, seed: int, only: str = None) -> int:
     results = [None] * len(chunks)
     nproc = min(NPROC, max(1, len(chunks)))
     ctx = mp.get_context("fork")
+    # Every chunk runs in a freshly forked worker (maxtasksperchild=1): module-level state of the library can leak
+    # between the cases of ONE chunk (that is the history the chunk explores, and the chunk is its replay) but never
+    # between chunks, so a violation never depends on which chunks a worker happened to run before. The library is
+    # imported here, before forking, so that workers start from the pristine import-time state at no cost.
+    _preload_library()
     try:
-        with ctx.Pool(nproc, initializer=_init, initargs=(mod.__name__, tier, seed)) as pool:
+        with ctx.Pool(nproc, initializer=_init, initargs=(mod.__name__, tier, seed), maxtasksperchild=1) as pool:
             for idx, res in pool.imap_unordered(_work, [(i, chunks[i]) for i in order], chunksize=1):
                 results[idx] = res
     except Exception:
